@@ -1863,7 +1863,26 @@ class _FormatInferInstance(Visitor):
         else:
             pos_bound = min(exact.pos_bound, scope_af.pos_bound)
             neg_bound = max(exact.neg_bound, scope_af.neg_bound)
-        overlap = AbstractFormat(prec, exp, pos_bound, neg_bound=neg_bound)
+        # Special values of the image: rounding keeps a NaN or an infinity
+        # the scope represents, an overflow produces the scope's infinity (or
+        # its NaN, in a format without one), and a negative value finer than
+        # the scope's quantum can round to the scope's `-0.0`.
+        over_pos = exact.pos_bound > scope_af.pos_bound
+        over_neg = exact.neg_bound < scope_af.neg_bound
+        special = (
+            exact.has_nan or exact.has_pos_inf or exact.has_neg_inf
+            or over_pos or over_neg
+        )
+        overlap = AbstractFormat(
+            prec, exp, pos_bound, neg_bound=neg_bound,
+            has_pos_inf=scope_af.has_pos_inf and (exact.has_pos_inf or over_pos),
+            has_neg_inf=scope_af.has_neg_inf and (exact.has_neg_inf or over_neg),
+            has_nan=scope_af.has_nan and special,
+            has_neg_zero=scope_af.has_neg_zero and (
+                exact.has_neg_zero
+                or (exact.neg_bound < 0 and exact.exp < scope_af.exp)
+            ),
+        )
         return self._materialize_in_scope(overlap, scope_fmt)
 
     @staticmethod
